@@ -292,6 +292,7 @@ func (w *World) cniAdd(p *podState, sandbox string) {
 	uid := p.uid
 	req := &rpc.AllocIPRequest{K8SPodName: p.spec.Name, K8SPodNamespace: ns, K8SPodInfraContainerId: sandbox, Netns: "/proc/1/ns/net", IfName: "eth0"}
 	w.run.S.Log("cni", "ADD invoke %s cid=%s", p.spec.Name, req.K8SPodInfraContainerId)
+	addBegin := time.Now()
 	w.addInFlight[uid]++
 	reply, err := w.svc.AllocIP(ctx, req)
 	w.addInFlight[uid]--
@@ -329,7 +330,7 @@ func (w *World) cniAdd(p *podState, sandbox string) {
 	// C02: what the daemon hands to the pod is what the record binds to it
 	if node := w.truthNode(); node != nil && p.exists && p.uid == uid {
 		b4, b6, _ := bindingsOf(node, ns+"/"+p.spec.Name)
-		if ((v4 != "" && !contains(b4, v4)) || (v6 != "" && !contains(b6, v6))) && !w.boundRecently(ns+"/"+p.spec.Name, v4, v6) {
+		if ((v4 != "" && !contains(b4, v4)) || (v6 != "" && !contains(b6, v6))) && !w.boundRecently(ns+"/"+p.spec.Name, v4, v6, addBegin) {
 			w.run.Violate("C02", "daemon-read", "daemon-returned-unbound-address", "AllocIP for %s returned %s/%s but the record binds %v/%v to it", p.spec.Name, v4, v6, b4, b6)
 		}
 	}
@@ -665,13 +666,12 @@ func (w *World) podByID(podID string) *podState {
 	return nil
 }
 
-// boundRecently: through a lagging cache the agent may answer from a version of the record that
-// is up to the lag old; the addresses must have been bound to the pod in some version of that age.
-func (w *World) boundRecently(podID, v4, v6 string) bool {
-	lag := time.Duration(w.cfg.CacheLagMs) * time.Millisecond
-	if lag == 0 {
-		return false
-	}
+// boundRecently: the addresses were bound to the pod in some version of the record the agent can
+// have read during the request.
+func (w *World) boundRecently(podID, v4, v6 string, begin time.Time) bool {
+	// the agent reads the record once during the request: any version from the request's start on
+	// (and, through the cache, up to the lag older) may be the one it answered from
+	lag := time.Duration(w.cfg.CacheLagMs)*time.Millisecond + time.Since(begin)
 	ok4, ok6 := v4 == "", v6 == ""
 	for _, ip := range []string{v4, v6} {
 		if ip == "" {
